@@ -6,6 +6,7 @@ package mptkit
 import (
 	"context"
 	"fmt"
+	"hash/crc32"
 	"sort"
 	"strings"
 	"sync/atomic"
@@ -351,6 +352,43 @@ func (o Op) String() string {
 	return fmt.Sprintf("%s(%q)", o.Kind, o.Path)
 }
 
+// Lookalike returns a value of the same length as old that differs from it: ASCII letters in the other case, one end
+// byte changed, or bytes changed so that the CRC-32 stays the same (the generator polynomial XOR-ed in).
+func Lookalike(rt *rapid.T, old []byte, label string) []byte {
+	v := append([]byte(nil), old...)
+	switch gen.Uniform(rt, 0, 3, label) {
+	case 0:
+		changed := false
+		for i, c := range v {
+			if c >= 'a' && c <= 'z' || c >= 'A' && c <= 'Z' {
+				v[i] = c ^ 0x20
+				changed = true
+			}
+		}
+		if changed {
+			return v
+		}
+		v[len(v)-1]++
+	case 1:
+		if len(v) >= 5 {
+			at := gen.Uniform(rt, 0, len(v)-5, label+"_at")
+			for i, d := range []byte{0x41, 0x06, 0x71, 0xdb, 0x01} {
+				v[at+i] ^= d
+			}
+			if crc32.ChecksumIEEE(v) == crc32.ChecksumIEEE(old) {
+				return v
+			}
+			copy(v, old)
+		}
+		v[0]++
+	case 2:
+		v[len(v)-1]++
+	default:
+		v[0]++
+	}
+	return v
+}
+
 // GenOps draws n operations that are valid against model (deletes only of live
 // keys, ~35% deletes when keys exist, with a bias to re-insert deleted keys)
 // and applies them to model. used collects every path drawn.
@@ -422,6 +460,10 @@ func GenOpsP(rt *rapid.T, model map[string][]byte, used *[]string, n, maxBytes, 
 				p = TwinPath(rt, base, label+"_t")
 				v = append([]byte(nil), model[base]...)
 			}
+		}
+		if old, live := model[p]; live && len(old) > 0 && gen.Chance(rt, 15, label+"_like") {
+			// an overwrite by a value that is easy to mistake for the old one
+			v = Lookalike(rt, old, label+"_lk")
 		}
 		ops = append(ops, Op{Kind: "ins", Path: p, Val: fmt.Sprintf("%x", v)})
 		model[p] = v
